@@ -119,11 +119,22 @@ PartOK(p) ==
        /\ CodeNear(p.trim, CrossA(data[e], data[e - 1]), CrossB(data[e], data[e - 1]))
 
 (* Tier 1 with two dimensions: a point is visible when it is in range in    *)
-(* both.  Only the clauses about points are demanded (consumed once,        *)
-(* progress, visible points drawn in their own part, no other point drawn,  *)
-(* a cut/trimmed line end is not a visible point); where the 2-d line       *)
-(* crosses the boundary is not decided.                                     *)
+(* both.  The point clauses as before; a cut/trimmed line end is where the  *)
+(* line leaves the visible rectangle: the largest of the crossing fractions *)
+(* (measured from that end) of the dimensions in which the end is outside.  *)
+(* (Consecutive line points are never both outside in the same dimension.)  *)
 Vis2(i) == InR(data[i]) /\ InR(data2[i])
+Cross2OK(c, o, i) ==     \* o: index of the outside line end, i: its neighbour on the line
+  LET out1 == ~InR(data[o]) /\ InR(data[i])
+      out2 == ~InR(data2[o]) /\ InR(data2[i])
+      a1 == CrossA(data[o], data[i])   b1 == CrossB(data[o], data[i])
+      a2 == CrossA(data2[o], data2[i]) b2 == CrossB(data2[o], data2[i])
+      q1 == FloorCode(a1, b1)  q2 == FloorCode(a2, b2)      \* the larger fraction, compared without leaving 32 bits
+  IN IF out1 /\ out2 THEN (IF q1 < q2 THEN CodeNear(c, a2, b2) ELSE IF q2 < q1 THEN CodeNear(c, a1, b1)
+                          ELSE CodeNear(c, a1, b1) \/ CodeNear(c, a2, b2))
+     ELSE IF out1 THEN CodeNear(c, a1, b1)
+     ELSE IF out2 THEN CodeNear(c, a2, b2)
+     ELSE FALSE           \* an end that is outside is so in one of the dimensions, with its neighbour inside there
 PartOK2(p) ==
   LET m == Min2(p.n, Limit) IN
   /\ p.raw \in 0..m /\ p.usr \in 0..(m + 1)
@@ -131,8 +142,12 @@ PartOK2(p) ==
   /\ p.s + p.usr <= Len(data)
   /\ \A i \in Drawn(p) : Vis2(i) /\ i <= p.s + p.raw
   /\ \A i \in (p.s + 1)..(p.s + p.raw) : Vis2(i) => i \in Drawn(p)
-  /\ (p.cut # 0 /\ p.usr > 0) => p.usr >= 2 /\ ~Vis2(p.s + 1)
-  /\ (p.trim # 0 /\ p.usr > 0) => p.usr >= 2 /\ ~Vis2(p.s + p.usr)
+  /\ (p.cut # 0 /\ p.usr > 0) =>
+       /\ p.usr >= 2 /\ ~Vis2(p.s + 1)
+       /\ Cross2OK(p.cut, p.s + 1, p.s + 2)
+  /\ (p.trim # 0 /\ p.usr > 0) =>
+       /\ p.usr >= 2 /\ ~Vis2(p.s + p.usr)
+       /\ Cross2OK(p.trim, p.s + p.usr, p.s + p.usr - 1)
 NDrawn(p) == LET a == p.s + 1 + (IF p.cut # 0 THEN 1 ELSE 0)
                  b == p.s + p.usr - (IF p.trim # 0 THEN 1 ELSE 0)
              IN IF b < a THEN 0 ELSE b - a + 1
@@ -175,13 +190,14 @@ ApplyOldD(dat, old, rest, len, off, out) ==
   ELSE LET ousr == Min2(old.usr, len)
            p0   == PartOf(SubSeq(dat, off + 1, off + Min2(ousr, Limit)))
            cut  == IF old.cut > p0.cut THEN old.cut ELSE p0.cut
+           \* the old trim describes the old line's last segment: it counts when the new line ends in the same point
+           trimM == IF p0.usr = ousr /\ old.trim > p0.trim THEN old.trim ELSE p0.trim
        IN IF p0.raw < old.raw
-          THEN LET pt == [s |-> off, n |-> ousr, raw |-> p0.raw, usr |-> p0.usr, cut |-> cut, trim |-> p0.trim]
+          THEN LET pt == [s |-> off, n |-> ousr, raw |-> p0.raw, usr |-> p0.usr, cut |-> cut, trim |-> trimM]
                    o2 == [raw |-> old.raw - p0.raw, usr |-> ousr - p0.raw, cut |-> 0, trim |-> old.trim]
                IN ApplyOldD(dat, o2, rest, len - p0.raw, off + p0.raw, AddPart(out, pt))
           ELSE LET raw  == Min2(old.raw, p0.raw)
-                   trim == IF old.trim > p0.trim THEN old.trim ELSE p0.trim
-                   pt   == [s |-> off, n |-> ousr, raw |-> raw, usr |-> p0.usr, cut |-> cut, trim |-> trim]
+                   pt   == [s |-> off, n |-> ousr, raw |-> raw, usr |-> p0.usr, cut |-> cut, trim |-> trimM]
                    out2 == AddPart(out, pt)
                IN IF rest = <<>> THEN out2 ELSE ApplyOldD(dat, rest[1], tl(rest), len - raw, off + raw, out2)
 
